@@ -139,7 +139,7 @@ def _add_item(ctx, meths):
         writes = [t for t in tags if t in ('del', 'del-order', 'del-values', 'ins', 'app', 'setv')
                   or t.split(':')[0] in ('ins?', 'setv?', 'app?')]
         desc = 'path[%s] effects=%s end=%s' % (
-            ', '.join('%s=%s' % (t.replace(' @before', ''), v) for t, v in p.conds), tags, p.end)
+            ', '.join('%s=%s' % (t.split(' @before')[0], v) for t, v in p.conds), tags, p.end)
         # ---- D2: refusals before writes; validator first
         if p.end == 'raise':
             exc = p.end_node.exc
@@ -261,7 +261,24 @@ def _add_item(ctx, meths):
             if 'del' in tags and pk_given and last_lookup >= 0:
                 i_del = tags.index('del')
                 if last_lookup > i_del:
-                    ctx.ob('C16.D3', 'position is recomputed after the delete', True, where)
+                    # recomputing after the delete is only safe when pos_key cannot be the key that was just removed
+                    guard = None
+                    for txt, val in (('%s != %s' % (pos_key, key), True), ('%s == %s' % (pos_key, key), False),
+                                     ('%s != %s' % (key, pos_key), True), ('%s == %s' % (key, pos_key), False)):
+                        v = p.last_cond(txt)
+                        if v is not None:
+                            guard = (v == val)
+                    if guard:
+                        ctx.ob('C16.D3', 'position is recomputed after the delete, on a path where pos_key is not the '
+                                         'moved key', True, where)
+                    else:
+                        V('C16.D3', 'del %s[%s]' % (s, key),
+                          "order [a, b]; add_item('a', v, pos_key='a') (move a key relative to itself): the key is deleted, "
+                          "then the look-up of pos_key in the shortened order list raises ValueError -- the operation "
+                          "fails *after* the entry was removed (the map lost 'a')",
+                          'the position of pos_key is looked up again after `del %s[%s]`; when pos_key is the moved key '
+                          'itself the look-up fails with the entry already deleted' % (s, key))
+                        continue
                 else:
                     olds = [t.split(':')[1] for i, t in enumerate(tags) if t.startswith('oldpos:') and i < i_del]
                     adj = None
